@@ -88,7 +88,9 @@ impl Sess {
         let plan_ms = plan_for(&line, stm).unwrap_or(0);
         let idx_send = self.eng.transcript.len();
         let t_send = self.eng.send(&line);
-        let budget = Duration::from_millis(plan_ms.min(60_000) as u64) + extra_wait;
+        // a plan far beyond anything the workloads intend (e.g. a saturated slice) is not waited for
+        let wait_plan = if plan_ms > 10_000 { 0 } else { plan_ms };
+        let budget = Duration::from_millis(wait_plan as u64) + extra_wait;
         let hit = self.eng.wait_for(|l| l.starts_with("bestmove"), budget);
         let bestmove = hit.map(|i| {
             let e = &self.eng.transcript[i];
@@ -184,7 +186,7 @@ pub fn go_args(rng: &mut Rng, stm: Color, max_plan: u128) -> String {
             fields.push((their_i.into(), rng.pick(HUGE).to_string()));
         }
         if rng.chance(1, 2) {
-            fields.push(("movestogo".into(), rng.pick(&["1", "2", "40", "40", "4294967295", "4294967296", "100000000000000000000"]).to_string()));
+            fields.push(("movestogo".into(), rng.pick(&["1", "2", "40", "40", "4294967295", "4294967296", "100000000000000000000", "0", "-3"]).to_string()));
         }
         rng.shuffle(&mut fields);
         for (k, v) in fields {
@@ -196,6 +198,9 @@ pub fn go_args(rng: &mut Rng, stm: Color, max_plan: u128) -> String {
         }
         let args = parts.join(" ");
         let line = if args.is_empty() { "go".to_string() } else { format!("go {}", args) };
+        // "movestogo 0" (or a negative count) tells the engine nothing usable; the slice that is
+        // acceptable for the workload is judged on the line without it
+        let line = line.replace(" movestogo 0", "").replace(" movestogo -3", "");
         match plan_for(&line, stm) {
             Ok(plan) => {
                 if plan <= max_plan {
